@@ -23,7 +23,14 @@ CONFIGS = [
     ("close_loop", {}), ("close_loop", {"close_after_store": 80}),
     ("close_before_reset", {"after_dequeue": 300}),
     ("closed_session", {}),
+    # an interrupt acknowledged after hand-over to the worker but before the interpreter loop (parse/load)
+    # must stop the eval: with the H4 point `before_eval_loop` (patches/nrepl-hook-points2.diff) the worker is
+    # stalled after parse/load and the interrupt is sent once the post-load diagnostic has been seen;
+    # without any hook, a submission with >= 1 s of parse+load is interrupted 0.3-0.5 s after hand-over
+    ("parse_window_hook", {"before_eval_loop": 1200}),
+    ("parse_window_big", {}),
 ]
+N_BY_KIND = {"parse_window_hook": 3, "parse_window_big": 2}
 
 
 def extra(kind, sc, res):
@@ -60,4 +67,17 @@ def run(ctx):
         "the window between a request's dequeue and its flag reset is excluded from close_stops (known finding C31/close-before-reset); "
         "an interrupt landing there is by definition an idle interrupt",
     ]
-    N.run_configs(ctx, "C31", configs, n, extra_oracle=extra)
+    import os, re
+    from . import common
+    try:
+        src = open(os.path.join(common.REPO, "src", "nrepl.rs")).read()
+    except OSError:
+        src = ""
+    ctx.cov["hook_before_eval_loop_present"] = 'verif_point("before_eval_loop")' in src
+    if not ctx.cov["hook_before_eval_loop_present"]:
+        ctx.notes.append("H4 point before_eval_loop is not in this tree (patches/nrepl-hook-points2.diff): the "
+                         "parse_window_hook probe cannot stall the worker and only the hook-free parse_window_big "
+                         "probe covers the parse/load window")
+    ctx.assumptions.append("parse_window_big: an idle session worker dequeues a request (and resets the flag) within "
+                           "0.3 s of the reader handing it over; a miss is re-run once with 4x bounds before it is reported")
+    N.run_configs(ctx, "C31", configs, n, extra_oracle=extra, n_by_kind=N_BY_KIND)
